@@ -12,7 +12,7 @@ from ..common import rng_for
 LEVEL = "exploration"
 NEEDS = ["harness", "harness:ovf"]
 RULE = ("all shapes with 1..A axes and lengths 1..5 (A=4 quick, 5 thorough), each on the release and the "
-        "overflow-checked harness; per shape: iter_indices trace past exhaustion, get() on every valid index and on "
+        "overflow-checked harness; per shape: iter_indices trace past exhaustion, iter_indices call histories mixing next() and nth(k) stepping past the end, get() on every valid index and on "
         "wrong-length/out-of-range indices, get_axis on every (axis, position) incl. axis d, d+1, usize::MAX and "
         "position len, len+1, usize::MAX, every view iterated 2*len+5 times with len() before each call, "
         "iter_axis traces, sum(axis). A shape is non-trivial when it has >= 2 elements; distinct = distinct (shape, build).")
@@ -71,6 +71,55 @@ def get_queries(shape, rng):
     return q, valid
 
 
+def index_histories(shape, rng):
+    """Call histories over iter_indices mixing next() and nth(k) (what skip/step_by/advance use), continued past the end."""
+    n = _prod(shape)
+    hs = []
+    for ks in ([n], [n + 1], [n - 1] if n else [0], [0, n], [n // 2, n], [n + 5, 0], [1, 1, n], [2 * n + 3]):
+        h = []
+        for k in ks:
+            h.append(["nth", k])
+            h.append(["next"])
+        h += [["next"], ["nth", 0], ["next"]]
+        hs.append(h)
+    for _ in range(3):
+        h = []
+        for _ in range(rng.randint(2, 8)):
+            h.append(["nth", rng.choice([0, 1, 2, n // 3, n - 1 if n else 0, n, n + 1])] if rng.random() < 0.5 else ["next"])
+        h += [["next"], ["next"]]
+        hs.append(h)
+    return hs
+
+
+def check_histories(S, shape, res, kind, histories, bad, is_panic):
+    n = _prod(shape)
+    idxs = [list(i) for i in itertools.product(*[range(m) for m in shape])]
+    for h, tr in zip(histories, res.get("index_histories", [])):
+        S.count("index_histories")
+        if is_panic(tr):
+            bad("panic:index-history", "iter_indices history %r panicked: %s" % (h, tr["panic"]))
+            continue
+        pos = 0
+        for (op, (ln, item)) in zip(h, tr):
+            if is_panic(ln) or is_panic(item):
+                bad("panic:index-history", "iter_indices history %r panicked at %r: %r %r" % (h, op, ln, item))
+                break
+            exp_len = max(0, n - pos)
+            if op[0] == "nth":
+                tgt = pos + op[1]
+                exp_item = idxs[tgt] if tgt < n else None
+                pos = min(n, tgt + 1)
+            else:
+                exp_item = idxs[pos] if pos < n else None
+                pos = min(n, pos + 1)
+            if ln != exp_len:
+                bad("iter_indices:history-len", "iter_indices history %r: len() before %r was %r, expected %d" % (h, op, ln, exp_len))
+                break
+            if item != exp_item:
+                bad("iter_indices:history-item", "iter_indices history %r: %r yielded %r, expected %r" % (h, op, item, exp_item))
+                break
+
+
 def check_shape(S, shape, res, kind, queries, nvalid):
     tag = "%s %s" % ("x".join(map(str, shape)), kind)
     d = len(shape)
@@ -105,6 +154,7 @@ def check_shape(S, shape, res, kind, queries, nvalid):
                 bad("iter_indices:len", "iter_indices len() before call %d was %r, expected %d" % (t, ln, exp_len))
                 break
         S.count("iter_indices_calls", len(tr))
+    check_histories(S, shape, res, kind, res.get("_histories", []), bad, is_panic)
     # 2. get
     for qi, (q, r) in enumerate(zip(queries, res["get"])):
         if is_panic(r):
@@ -208,10 +258,12 @@ def shard(S, p):
     reqs, metas = [], []
     for shape in p["shapes"]:
         q, nv = get_queries(shape, rng)
-        reqs.append({"op": "array", "shape": shape, "get": q, "extra": 3})
-        metas.append((q, nv))
+        hs = index_histories(shape, rng)
+        reqs.append({"op": "array", "shape": shape, "get": q, "extra": 3, "index_histories": hs})
+        metas.append((q, nv, hs))
     results = harness.run_all(reqs, kind=p["kind"])
-    for shape, res, (q, nv) in zip(p["shapes"], results, metas):
+    for shape, res, (q, nv, hs) in zip(p["shapes"], results, metas):
+        res["_histories"] = hs
         check_shape(S, shape, res, p["kind"], q, nv)
         S.case(key="%s|%s" % (shape, p["kind"]), nontrivial=_prod(shape) >= 2)
         if shape in ([2, 3], [3, 1, 2]) and p["kind"] == "release":
